@@ -535,6 +535,8 @@ func c15Gen(g *Gen) {
 	c15Slices(g)
 	c15Truncates(g)
 	c15TruncateRuns(g)
+	c15TruncateOdd(g)
+	c15CleanFamilies(g)
 	c15Extracts(g)
 	c15Drops(g)
 	c15Matchers(g)
